@@ -352,7 +352,9 @@ func (b *Builder) interfaceHash(t *types.Interface) (ret []byte, pkg string) {
 			pkg = m.Pkg().Path()
 		}
 		ft := b.FuncName(m.Type().(*types.Signature))
-		fmt.Fprintln(h, m.Name(), ft)
+		// Id qualifies unexported names with their package: methods m of two
+		// packages are different methods even inside one interface type.
+		fmt.Fprintln(h, m.Id(), ft)
 	}
 	ret = h.Sum(b.buf[:0])
 	return
